@@ -319,7 +319,7 @@ pub struct Machine {
     pub wire: Option<Vec<u8>>,
 }
 
-type Enc = Result<Result<Vec<u8>, &'static str>, String>;
+pub type Enc = Result<Result<Vec<u8>, &'static str>, String>;
 
 impl Obj {
     pub fn proj(&self) -> Option<J> {
@@ -349,7 +349,7 @@ impl Obj {
     }
 
     /// to_vec / to_tagged_vec of a clone of the held value
-    fn encode(&self, tagged: bool) -> Enc {
+    pub fn encode(&self, tagged: bool) -> Enc {
         macro_rules! enc {
             ($x:expr) => {
                 Ok($x.clone().to_vec().map_err(|e| err_kind(&e)))
